@@ -1,6 +1,7 @@
 package main
 
 import (
+	"encoding/hex"
 	"encoding/json"
 	"flag"
 	"fmt"
@@ -37,6 +38,8 @@ type valCase struct {
 	Envs    []envVar    `json:"envs"`
 	Cli     []string    `json:"cli"`  // tokens bound to the variable, in order
 	Argv    []string    `json:"argv"` // the command line delivering them
+	// ArgvHex, when given, is the command line as hex-encoded byte strings (tokens that are not valid UTF-8 cannot travel as JSON text)
+	ArgvHex []string    `json:"argv_hex"`
 	Spec    string      `json:"spec"`
 	Custom  *customCaps `json:"custom"`
 	Extra   bool        `json:"extraflag"` // also declare a plain bool option -x (clusters, groups)
@@ -47,6 +50,7 @@ type valResult struct {
 	Ran     bool     `json:"ran"`
 	Err     string   `json:"err,omitempty"`
 	Panic   string   `json:"panic,omitempty"`
+	ValueHex []string `json:"value_hex,omitempty"` // string types with ArgvHex: the bytes of every value
 	Value   []string `json:"value"`   // canonical rendering of the variable inside the Action (or after Run when it did not run)
 	SBU     bool     `json:"sbu"`     // SetByUser inside the Action
 	EnvLog  []string `json:"envlog"`  // custom types: calls at declaration time
@@ -443,13 +447,26 @@ func runValues(c valCase) (r valResult) {
 		r.SBU = sbu
 		r.Value = read()
 	}
-	if err := app.Run(append([]string{"app"}, c.Argv...)); err != nil {
+	argv := c.Argv
+	if len(c.ArgvHex) > 0 {
+		argv = nil
+		for _, h := range c.ArgvHex {
+			b, _ := hex.DecodeString(h)
+			argv = append(argv, string(b))
+		}
+	}
+	if err := app.Run(append([]string{"app"}, argv...)); err != nil {
 		r.Err = err.Error()
 	}
 	r.FillLog = append(r.FillLog, log...)
 	if !r.Ran {
 		r.Value = read()
 		r.SBU = sbu
+	}
+	if len(c.ArgvHex) > 0 {
+		for _, v := range r.Value {
+			r.ValueHex = append(r.ValueHex, hex.EncodeToString([]byte(v)))
+		}
 	}
 	return
 }
